@@ -151,18 +151,50 @@ theorem gateError_strip (s : State σ) (p : Pkt) :
 theorem stripF_new (I : ObjIface σ) (id : Nat) (chk : Bool) :
     stripF (FdtRecv.new I id chk) = FdtRecv.new I id chk := rfl
 
-theorem fdtEntry_strip (I : ObjIface σ) (s : State σ) (id : Nat) :
-    fdtEntry I (stripS s) id = (stripS (fdtEntry I s id p).1, stripF (fdtEntry I s id p).2) := by
+theorem stripF_noteFti (f : FdtRecv σ) (v : Option Fti) :
+    stripF (f.noteFti v) = (stripF f).noteFti v := by
+  cases f with
+  | mk fdtId obj st0 expires inst utf8 offset late check hasMeta bytes fti =>
+    cases fti <;> rfl
+
+theorem fdtEntry_strip (I : ObjIface σ) (s : State σ) (id : Nat) (p : Pkt) :
+    fdtEntry I (stripS s) id p = (stripS (fdtEntry I s id p).1, stripF (fdtEntry I s id p).2) := by
   unfold fdtEntry
   have h1 : (stripS s).fdtReceivers = s.fdtReceivers.map (fun kf => (kf.1, stripF kf.2)) := rfl
   have h2 : (stripS s).cfg = s.cfg := rfl
   rw [h1, h2, alookup_map]
   cases alookup id s.fdtReceivers with
-  | some f => rfl
+  | some f =>
+    simp only [Option.map_some]
+    rw [stripF_noteFti]
   | none =>
     simp only [Option.map_none]
-    rw [← stripF_new I id s.cfg.expCheck, ainsert_map]
+    rw [stripF_noteFti, stripF_new, ← stripF_new I id s.cfg.expCheck, ainsert_map]
     rfl
+
+theorem stripS_aerase (a : State σ) (id : Nat) :
+    stripS { a with fdtReceivers := aerase id a.fdtReceivers } =
+      { stripS a with fdtReceivers := aerase id (stripS a).fdtReceivers } := by
+  simp only [stripS, aerase_map]
+
+theorem dropConflict_strip (s : State σ) (p : Pkt) :
+    dropConflict (stripS s) p = stripS (dropConflict s p) := by
+  unfold dropConflict
+  cases p.fdtId with
+  | none => rfl
+  | some id =>
+    simp only []
+    have h1 : (stripS s).fdtReceivers = s.fdtReceivers.map (fun kf => (kf.1, stripF kf.2)) := rfl
+    rw [h1, alookup_map]
+    cases alookup id s.fdtReceivers with
+    | none => rfl
+    | some f =>
+      simp only [Option.map_some]
+      have hc : (stripF f).ftiConflicts p = f.ftiConflicts p := rfl
+      rw [stripF_st, hc]
+      split
+      · simp only [stripS, aerase_map]
+      · rfl
 
 
 theorem prevIdCheck_strip (l : List (FdtRecv σ)) :
@@ -394,6 +426,10 @@ theorem nc_push (I : ObjIface σ) (f : FdtRecv σ) (p : Pkt) (now : Int) (ans : 
   have := push_fields I f p now ans
   exact ⟨by rw [this.2.2.1]; exact h.1, this.2.2.2.2 h.2⟩
 
+theorem nc_noteFti (f : FdtRecv σ) (v : Option Fti) (h : NC f) : NC (f.noteFti v) := by
+  have hf := noteFti_fields f v
+  exact ⟨by rw [hf.2.2.2.2.2.2.2.2.1]; exact h.1, by rw [hf.2.2.1]; exact h.2⟩
+
 theorem fdtDispatch_strip (I : ObjIface σ) (a b : State σ) (id : Nat) (g' g : FdtRecv σ) (now' now : Int)
     (hab : stripS a = stripS b) (hst : g'.st = g.st) (hne : g.st ≠ .expired) :
     mapResS (fdtDispatch I a id g' now') = mapResS (fdtDispatch I b id g now) := by
@@ -401,7 +437,7 @@ theorem fdtDispatch_strip (I : ObjIface σ) (a b : State σ) (id : Nat) (g' g : 
   rw [hst]
   cases hs : g.st with
   | receiving => simp only [mapResS, hab]
-  | error => simp only [mapResS, hab]
+  | error => simp only [mapResS, stripS_aerase, hab]
   | expired => exact absurd hs hne
   | complete =>
     simp only []
@@ -431,7 +467,7 @@ theorem pushFdtObjP_strip (I : ObjIface σ) (s : State σ) (p : Pkt) (now now' :
       simp only [stripF_st]
       -- the entry is an `NC` instance
       have hentry : NC (fdtEntry I s id p).2 := by
-        have := fdtEntry_all I NC s id (by rw [hcfg]; exact ⟨rfl, by simp [FdtRecv.new]⟩) hall
+        have := fdtEntry_all I NC s id p nc_noteFti (by rw [hcfg]; exact ⟨rfl, by simp [FdtRecv.new]⟩) hall
         exact this.2.1
       split
       · simp only [mapResS, stripS_idem]
@@ -465,6 +501,14 @@ theorem pushFdtObjP_strip (I : ObjIface σ) (s : State σ) (p : Pkt) (now now' :
           congr 1
           simp only [List.map_map]
           rfl
+
+theorem pushFdtObj_strip (I : ObjIface σ) (s : State σ) (p : Pkt) (now now' : Int) (ans : FdtAns)
+    (hcfg : s.cfg.expCheck = false) (hall : AllFdt NC s) :
+    mapResS (pushFdtObj I (stripS s) p now' ans) = mapResS (pushFdtObj I s p now ans) := by
+  unfold pushFdtObj
+  rw [dropConflict_strip]
+  have hd := dropConflict_all NC s p hall
+  exact pushFdtObjP_strip I _ p now now' ans (by rw [hd.2]; exact hcfg) hd.1
 
 theorem updateExpiredAll_nc (now : Int) :
     ∀ (l : List (Nat × FdtRecv σ)), (∀ kf ∈ l, kf.2.check = false) → updateExpiredAll now l = .ok l := by
@@ -570,7 +614,7 @@ theorem step_strip (I : ObjIface σ) (s : State σ) (op op' : Op) (hr : Retimed 
 theorem step_nc (I : ObjIface σ) (s s' : State σ) (op : Op) (r : Res) (evs : List Ev)
     (hcfg : s.cfg.expCheck = false) (h : step I s op = .ok (s', r, evs)) (hall : AllFdt NC s) :
     AllFdt NC s' ∧ s'.cfg.expCheck = false := by
-  have := step_all I NC s s' op r evs
+  have := step_all I NC s s' op r evs nc_noteFti
     (fun p now ans id _ _ => by rw [hcfg]; exact ⟨rfl, by simp [FdtRecv.new]⟩)
     (fun p now ans _ _ _ _ f hf => nc_push I f p now ans hf)
     (fun f f' hf hu => by
